@@ -616,6 +616,16 @@ void FnEmitter::emit_inst(const Instruction &I)
     case CmpInst::ICMP_ULE: case CmpInst::ICMP_SLE: op = "<="; break;
     default: die("icmp pred");
     }
+    // Itanium C++ ABI 2.3: a pointer to a NON-virtual member function is the (even) function address, a pointer to a virtual one is
+    // 1 + vtable offset. clang tests bit 0 of the value ("memptr.isvirtual"). The verifier cannot evaluate bit 0 of a function's
+    // address, so the test is printed as: a value that IS the address of an object of the program (a function) is not virtual.
+    if (IC->getName().startswith("memptr.isvirtual") && IC->getPredicate() == CmpInst::ICMP_NE)
+      if (auto *AN = dyn_cast<BinaryOperator>(IC->getOperand(0)))
+        if (AN->getOpcode() == Instruction::And)
+        {
+          out << ind << lhs() << "(__CPROVER_POINTER_OBJECT((void *)" << val(AN->getOperand(0)) << ") != 0 ? 0 : (" << a << " " << op << " " << b << "));\n";
+          return;
+        }
     out << ind << lhs() << "(" << a << " " << op << " " << b << ");\n";
     return;
   }
